@@ -6,6 +6,7 @@ import (
 	"errors"
 	"fmt"
 	"math/rand"
+	"runtime"
 	"runtime/debug"
 	"runtime/metrics"
 	"strconv"
@@ -126,7 +127,14 @@ var heapSample = []metrics.Sample{{Name: "/memory/classes/heap/objects:bytes"}}
 // in a loop); the run is then abandoned like one that runs out of fuel.
 func heapTooLarge() bool {
 	metrics.Read(heapSample)
-	return heapSample[0].Value.Kind() == metrics.KindUint64 && heapSample[0].Value.Uint64() > 1<<30
+	if heapSample[0].Value.Kind() != metrics.KindUint64 || heapSample[0].Value.Uint64() <= 1<<28 {
+		return false
+	}
+	// the figure includes garbage of earlier cases that has not been swept yet:
+	// collect and look again, so that the verdict depends on this run only
+	runtime.GC()
+	metrics.Read(heapSample)
+	return heapSample[0].Value.Uint64() > 1<<28
 }
 
 func (y *Yielder) Yield() {
